@@ -1,6 +1,6 @@
 """C09 - reorder / rename / MINC keep the physics.  Rules ORIENT, FRAME, PART."""
 import ast
-from ..core import AnalysisError, norm, dotted, call_name, walk_no_nested, is_self_attr
+from ..core import srcline, AnalysisError, norm, dotted, call_name, walk_no_nested, is_self_attr
 from .. import roles
 from ..formula import check_formula, compare
 from .. import flow
@@ -178,7 +178,7 @@ def rule_part(run):
         early = [u for u in uses if u.lineno < norm_stmt.lineno]
         unscaled = [u for u in uses if u.value.id != NF and u.lineno > norm_stmt.lineno]
         k2 = 't2grid.minc :: no fraction used before normalisation'
-        if early: run.violated(k2, '%s is read at line %d before the normalisation' % (norm(early[0]), early[0].lineno), where=fi.where(early[0]))
+        if early: run.violated(k2, '%s is read at line %d before the normalisation' % (norm(early[0]), srcline(early[0])), where=fi.where(early[0]))
         elif unscaled:
             run.violated(k2, '`%s` reads the fractions as given (`%s`), not the normalised `%s`: when the requested fractions do not sum to 1 '
                          'the continua volumes do not add up to the original block volume' % (norm(unscaled[0]), raw, NF), where=fi.where(unscaled[0]))
